@@ -97,6 +97,12 @@ func (env *SpecEnv) lookupType(src string) (types.Type, error) {
 		if t := env.e.P.lookupQualifiedType(src); t != nil {
 			return t, nil
 		}
+		// slices of such types
+		if strings.HasPrefix(src, "[]") {
+			if et, err2 := env.lookupType(src[2:]); err2 == nil {
+				return types.NewSlice(et), nil
+			}
+		}
 		return nil, fmt.Errorf("type %q: %v", src, err)
 	}
 	if !tv.IsType() {
